@@ -506,6 +506,22 @@ impl ConnDriver {
         }
     }
 
+    /// `set_payload_max_size` on a connection in use
+    pub fn set_limit(&mut self, rec: &mut Rec, l: usize) {
+        if let Some(conn) = self.conn.as_mut() {
+            match catch_unwind(AssertUnwindSafe(|| conn.set_payload_max_size(l))) {
+                Ok(()) => {
+                    self.limit = l;
+                    self.emit(rec, format!("conn setlimit {}", l), "ok".into());
+                }
+                Err(_) => {
+                    self.panicked = true;
+                    self.emit(rec, format!("conn setlimit {}", l), "PANIC".into());
+                }
+            }
+        }
+    }
+
     pub fn pending_write(&self) -> bool {
         self.conn.as_ref().map(|c| c.pending_write()).unwrap_or(false)
     }
